@@ -310,6 +310,9 @@ impl Property for C17 {
             _ => Verdict::fail("probe-broken", format!("the inlined probe does not assemble: {}", ob.brief())),
         }
     }
+    fn fuzz_runs(&self, _tier: Tier) -> u64 {
+        40_000
+    }
     fn random_cases(&self, tier: Tier) -> u64 {
         tier.pick(20_000, 300_000)
     }
